@@ -389,6 +389,11 @@ func narrowingParsers(t *Term, want types.Type) []string {
 				out = append(out, "strconv.ParseFloat with bit size "+x.Args[1].Name)
 			}
 		case "strconv.ParseInt":
+			// the writers print integers with %d / strconv.Itoa: decimal text. Parsed in another base the same digits
+			// are another number (every id above 9 changes); base 0 reads plain decimal digits as decimal.
+			if len(x.Args) == 3 && x.Args[1].Op == "const" && x.Args[1].Name != "10" && x.Args[1].Name != "0" {
+				out = append(out, "strconv.ParseInt with base "+x.Args[1].Name+" for a number written in decimal")
+			}
 			if len(x.Args) == 3 && x.Args[2].Op == "const" {
 				bits := x.Args[2].Name
 				need := 64
@@ -445,15 +450,18 @@ func selectorByIdOK(p *Prog, fn *ssa.Function) (bool, string) {
 			nonNil++
 			guarded := false
 			for _, g := range Guards(b) {
-				gt := tm.Of(g.Cond)
-				if gt.Op == "bin" && gt.Name == "==" && g.True {
-					l, rr := gt.Args[0], gt.Args[1]
-					if isParamIdx(rr, 0) {
-						l, rr = rr, l
-					}
-					if isParamIdx(l, 0) && rr.Op == "field" && rr.Name == "Id" && rr.Args[0].String() == alt.String() {
-						guarded = true
-					}
+				// the fact that holds on the way to the return is `element.Id == id`, however the test is spelled
+				// (`id == e.Id`, `!(e.Id != id)`, the else branch of `e.Id != id`)
+				cx, cy, op, okc := CmpFact(g.Cond, g.True)
+				if !okc || op != token.EQL {
+					continue
+				}
+				l, rr := tm.Of(cx), tm.Of(cy)
+				if isParamIdx(rr, 0) {
+					l, rr = rr, l
+				}
+				if isParamIdx(l, 0) && rr.Op == "field" && rr.Name == "Id" && len(rr.Args) > 0 && rr.Args[0].String() == alt.String() {
+					guarded = true
 				}
 			}
 			if !guarded {
